@@ -1,5 +1,6 @@
 import QtVerif.Proofs.EvalLazy
-import QtVerif.Proofs.EvalRatSpecs
+import QtVerif.Proofs.EvalRatFull
+import QtVerif.Proofs.EvalBits
 /-!
 C02 — Expression evaluation matches the reference semantics of the language.
 
@@ -400,30 +401,85 @@ theorem time_spec (c : Ctx α) :
     eval (.call "TIME" []) c = timestamp c.nowMs := by
   constructor <;> rfl
 
-/-- Over the exact rational carrier (a lawful ordered field): **DIV is exact, AVG of two numbers lies between them,
-two-point LUTLI is the linear interpolation and lies between the y's of its end-points.** -/
-theorem lawful_carrier_specs_partial :
+/-- **The table sort of LUT / LUTLI** (`points.sort(key=lambda p: p[0])` as the model performs it) returns a
+permutation of the table (every carrier, no hypothesis), sorted by x and stable — points with equivalent x's keep
+their table order, which is what decides the y on equal x's — whenever `<` is a strict weak order on the x's
+(always on bools/ints, on floats without NaN). -/
+theorem table_sort_sorted_stable_perm (l : List (Pt α)) :
+    (sortPts l).Perm l ∧
+    (WeakOrderOn (l.map (·.1)) → SortedPts (sortPts l)) ∧
+    (∀ r : Val α, WeakOrderOn (r :: l.map (·.1)) →
+      (sortPts l).filter (fun q => sameKey r q.1) = l.filter (fun q => sameKey r q.1)) :=
+  ⟨sortPts_perm l, sortPts_sorted l, fun r w => sortPts_stable l r w⟩
+
+/-- Over the exact rational carrier (a lawful ordered field), for ANY number of arguments / table points:
+* **DIV is exact**;
+* **AVG is Σ/n and lies between MIN and MAX** of its arguments (`sum()`'s Neumaier compensation stays 0);
+* **LUTLI is the piecewise-linear interpolation of its table** (any order, equal x's allowed): left of the table the
+  y of a point with the smallest x, right of it the y of a point with the largest x (clamping), inside the linear
+  interpolation between two table points bracketing x with no table point strictly between them — the first one's y
+  on a vertical segment — and it lies between their y's. -/
+theorem lawful_carrier_specs :
     letI := exactRat
     (∀ (a b : Rat) (now : Int), b ≠ 0 → ∃ q : Rat, applyFn true now "DIV" [.f a, .f b] = .val (.f q) ∧ q * b = a) ∧
-    (∀ (a b : Rat) (now : Int), ∃ m : Rat, applyFn true now "AVG" [.f a, .f b] = .val (.f m) ∧ min a b ≤ m ∧ m ≤ max a b) ∧
-    (∀ (x x1 y1 x2 y2 : Rat) (now : Int), x1 < x2 → x1 ≤ x → x ≤ x2 →
-      ∃ y : Rat, applyFn true now "LUTLI" [.f x, .f x1, .f y1, .f x2, .f y2] = .val (.f y) ∧
-        y = y1 + (y2 - y1) * (x - x1) / (x2 - x1) ∧ min y1 y2 ≤ y ∧ y ≤ max y1 y2) :=
-  ⟨rat_div_exact, rat_avg2_between, rat_lutli2_between⟩
+    (∀ (x y : Rat) (rest : List Rat) (now : Int), ∃ lo hi m : Rat,
+      applyFn true now "MIN" ((x :: y :: rest).map Val.f) = .val (.f lo) ∧
+      applyFn true now "MAX" ((x :: y :: rest).map Val.f) = .val (.f hi) ∧
+      applyFn true now "AVG" ((x :: y :: rest).map Val.f) = .val (.f m) ∧
+      lo ∈ x :: y :: rest ∧ hi ∈ x :: y :: rest ∧ (∀ v ∈ x :: y :: rest, lo ≤ v ∧ v ≤ hi) ∧
+      m * ((x :: y :: rest).length : Rat) = (x :: y :: rest).sum ∧ lo ≤ m ∧ m ≤ hi) ∧
+    (∀ (x : Rat) (p0 p1 : Rat × Rat) (more : List (Rat × Rat)) (now : Int),
+      ∃ y : Rat, applyFn true now "LUTLI" (Val.f x :: flatPts (p0 :: p1 :: more)) = .val (.f y) ∧
+        (((∀ r ∈ p0 :: p1 :: more, x < r.1) ∧ ∃ p ∈ p0 :: p1 :: more, y = p.2 ∧ ∀ r ∈ p0 :: p1 :: more, p.1 ≤ r.1) ∨
+         ((∀ r ∈ p0 :: p1 :: more, r.1 < x) ∧ ∃ p ∈ p0 :: p1 :: more, y = p.2 ∧ ∀ r ∈ p0 :: p1 :: more, r.1 ≤ p.1) ∨
+         (∃ p ∈ p0 :: p1 :: more, ∃ q ∈ p0 :: p1 :: more, p.1 ≤ x ∧ x ≤ q.1 ∧
+            (∀ r ∈ p0 :: p1 :: more, r.1 ≤ p.1 ∨ q.1 ≤ r.1) ∧
+            (p.1 = q.1 → y = p.2) ∧ (p.1 < q.1 → y = p.2 + (q.2 - p.2) * (x - p.1) / (q.1 - p.1)) ∧
+            min p.2 q.2 ≤ y ∧ y ≤ max p.2 q.2))) := by
+  refine ⟨rat_div_exact, rat_avg_between, ?_⟩
+  intro x p0 p1 more now
+  rw [applyFn_lutli_flat]
+  exact lutli_rat_spec x (p0 :: p1 :: more) (by simp)
 
-/-- The FULL statement of which `lawful_carrier_specs_partial` proves the two-argument / two-point instances, NOT
-proved: over the exact carrier, for ANY number of arguments AVG lies between MIN and MAX, and for ANY number of points
-(any order, equal x's) LUTLI's result lies between the y's of the two points bracketing x. Missing: exactness of the
-Neumaier loop for n floats and the sort/bracket argument over rational keys (done above for integer keys only).
-Also not stated as theorems: bit-level characterisation of BITAND / BITOR / BITXOR / SHL / SHR on negative ints, and
-ROUND / POW on floats — those are compared bit-exactly with the real code by the correspondence check. -/
-def lawfulCarrierSpecsFull : Prop :=
-  letI := exactRat
-  (∀ (xs : List Rat) (now : Int), 2 ≤ xs.length →
-    ∃ m : Rat, applyFn true now "AVG" (xs.map Val.f) = .val (.f m) ∧ (∃ lo ∈ xs, lo ≤ m) ∧ (∃ hi ∈ xs, m ≤ hi)) ∧
-  (∀ (x : Rat) (pts : List (Rat × Rat)) (now : Int), 2 ≤ pts.length →
-    ∃ y : Rat, lutli (.f x) (pts.map fun p => (Val.f p.1, Val.f p.2)) = .val (.f y) ∧
-      ∃ p ∈ pts, ∃ q ∈ pts, min p.2 q.2 ≤ y ∧ y ≤ max p.2 q.2)
+/-- **Bitwise functions on Python ints are the two's-complement ones.** The model computes `&`, `|`, `^` by hand on
+`Int` (core Lean has no `Int.land` / `lor` / `xor`); `ibit n k` is bit `k` of the infinite two's-complement
+representation of `n`. BITAND / BITOR / BITXOR / BITNOT act bit by bit; SHL is multiplication by `2^k` (core `<<<`),
+SHR the floor of the division by `2^k` (core `>>>`). -/
+theorem bitwise_spec (a b : Int) (now : Int) :
+    (∃ r, applyFn true now "BITAND" [.i a, .i b] = (.val (.i r) : Res α) ∧ ∀ k, ibit r k = (ibit a k && ibit b k)) ∧
+    (∃ r, applyFn true now "BITOR" [.i a, .i b] = (.val (.i r) : Res α) ∧ ∀ k, ibit r k = (ibit a k || ibit b k)) ∧
+    (∃ r, applyFn true now "BITXOR" [.i a, .i b] = (.val (.i r) : Res α) ∧ ∀ k, ibit r k = (ibit a k ^^ ibit b k)) ∧
+    (∃ r, applyFn true now "BITNOT" [.i a] = (.val (.i r) : Res α) ∧ ∀ k, ibit r k = !(ibit a k)) ∧
+    (0 ≤ b → applyFn true now "SHL" [.i a, .i b] = (.val (.i (a * 2 ^ b.toNat)) : Res α) ∧ a * 2 ^ b.toNat = a <<< b.toNat) ∧
+    (0 ≤ b → ∃ q, applyFn true now "SHR" [.i a, .i b] = (.val (.i q) : Res α) ∧ q = a >>> b.toNat ∧
+        q * 2 ^ b.toNat ≤ a ∧ a < (q + 1) * 2 ^ b.toNat) := by
+  refine ⟨⟨iand a b, ?_, iand_bit a b⟩, ⟨ior a b, ?_, ior_bit a b⟩, ⟨ixor a b, ?_, ixor_bit a b⟩,
+    ⟨inot a, ?_, inot_bit a⟩, ?_, ?_⟩
+  · show (fnInt2 (fun x y => Except.ok (iand (iand (-1) x) y)) [Val.i a, Val.i b] : Res α) = _
+    simp [fnInt2, intOp2, toInt, iand_neg_one]
+  · show (fnInt2 (fun x y => Except.ok (ior (ior 0 x) y)) [Val.i a, Val.i b] : Res α) = _
+    simp [fnInt2, intOp2, toInt, ior_zero]
+  · show (fnInt2 (fun x y => Except.ok (ixor x y)) [Val.i a, Val.i b] : Res α) = _
+    simp [fnInt2, intOp2, toInt]
+  · show fnBitNot [Val.i a] = _
+    simp [fnBitNot, toInt]
+  · intro hb
+    have : ¬ b < 0 := by omega
+    refine ⟨?_, (Int.shiftLeft_eq a b.toNat).symm⟩
+    show fnInt2 ishl [Val.i a, Val.i b] = _
+    simp [fnInt2, intOp2, toInt, ishl, this]
+  · intro hb
+    obtain ⟨q, hq, h1, h2⟩ := ishr_floor a b hb
+    have hq' := ishr_eq a b hb
+    rw [hq] at hq'
+    refine ⟨q, ?_, by injection hq', h1, h2⟩
+    show fnInt2 ishr [Val.i a, Val.i b] = _
+    simp [fnInt2, intOp2, toInt, hq]
+
+/-! Nothing of the former `lawfulCarrierSpecsFull` is left unproved. Not stated as theorems: ROUND(x, n) and POW on
+floats, LUT on non-integer keys — `round`/`pow` are primitives of the carrier (in the binary64 instance computed on
+decoded bits resp. by libm, opaque to Lean's logic); they are compared bit-exactly with the real code by the
+correspondence check. -/
 
 /-! ## 8. The code as found at the pinned commit violates the property (repaired by fixes/C02-*.diff) -/
 
@@ -537,6 +593,18 @@ example : (Instance.fresh (.call "LUT" [.lit "1", .lit "1", .portVal "a", .lit "
       [exCtx, { exCtx with vals := fun id => if id = "a" then some (.i 8) else none },
        { exCtx with vals := fun _ => none }]
     = [.val (.i 3), .val (.i 8), .unavailable] := by decide +kernel
+-- n-ary AVG and an unsorted 3-point LUTLI table with an equal x, on the exact carrier
+example : applyFn true 0 "AVG" ([1, 2, 6, 3].map Val.f : List (Val Rat)) = .val (.f 3) := by decide +kernel
+example : applyFn true 0 "LUTLI" (Val.f (4 : Rat) :: flatPts [(5, 20), (1, 10), (5, 99), (9, 40)]) = .val (.f (35/2)) := by
+  decide +kernel
+example : applyFn true 0 "LUTLI" (Val.f (7 : Rat) :: flatPts [(5, 20), (1, 10), (5, 99), (9, 40)]) = .val (.f (139/2)) := by
+  decide +kernel
+example : WeakOrderOn ([.f (1/2 : Rat), .f 3, .f (-2)] : List (Val Rat)) :=
+  weakOrderOn_ratFloats _ (by intro v hv; simp at hv; rcases hv with h | h | h <;> exact ⟨_, h⟩)
+example : applyFn true 0 "BITAND" [.i (-6), .i 11] = (.val (.i 10) : Res Rat) ∧
+    applyFn true 0 "BITOR" [.i (-6), .i 3] = (.val (.i (-5)) : Res Rat) ∧
+    applyFn true 0 "BITXOR" [.i (-6), .i 3] = (.val (.i (-7)) : Res Rat) ∧
+    applyFn true 0 "SHR" [.i (-7), .i 1] = (.val (.i (-4)) : Res Rat) := by decide +kernel
 -- the code as found on the witness, and the repaired evaluator, on the exact carrier
 example : (evalU witnessExpr (witnessCtx (α := Rat))) = (.error .unknownPort, 3) := by decide +kernel
 example : applyFn false 0 "POW" [.f (-1 : Rat), .f (1/2)] = .complexVal := by decide +kernel
